@@ -28,7 +28,7 @@ LEVEL = {"C02": "exploration", "C04": "exploration"}
 
 PLAN = {
     "C02": {
-        "quick": {"runs": 2400, "wall_cap": 100, "chunk": 10, "selftest": 8},
+        "quick": {"runs": 3400, "wall_cap": 100, "chunk": 10, "selftest": 8},
         "thorough": {"runs": 80000, "wall_cap": 1700, "chunk": 25, "selftest": 40},
     },
     "C04": {
